@@ -1,12 +1,14 @@
 package main
 
 import (
+	"context"
 	"fmt"
 	"os"
 	"os/exec"
 	"strings"
 	"sync"
 	"sync/atomic"
+	"time"
 
 	"github.com/gobuffalo/plush/v5"
 )
@@ -159,6 +161,24 @@ func c14ContentForSharedParent() string {
 	}
 }
 
+// wait for a group of goroutines, but not for ever: a group that does not come back within the
+// time limit is a deadlock (or a lost wake-up); the run ends there with what was found so far
+func c14wait(e *Env, wg *sync.WaitGroup) {
+	done := make(chan struct{})
+	go func() { wg.Wait(); close(done) }()
+	limit := 60 * time.Second
+	if e.Thorough() {
+		limit = 240 * time.Second
+	}
+	select {
+	case <-done:
+	case <-time.After(limit):
+		e.Violate("c14-deadlock", fmt.Sprintf("a group of goroutines did not finish within %v: deadlock", limit), map[string]string{"after": fmt.Sprint(e.rep.Distribution)})
+		e.finish()
+		os.Exit(0)
+	}
+}
+
 func init() {
 	register("C14", func(e *Env) {
 		e.rep.Rule = "race-detector runs: (a) 2-32 goroutines mixing Set/Value/Has/New on one context; (b) one parsed template (direct, Clone and cache-served) executed from 2-32 goroutines with own root contexts or children of one shared parent, every result compared with the sequential one; (b2) a view template storing a contentFor block and a layout template replaying it, executed one after the other on one context by every goroutine; (c) concurrent Parse/Render/CacheSet with the cache enabled; non-trivial = a goroutine group that ran to completion; distinct by (workload, template, goroutines, context mode, cache mode)"
@@ -196,7 +216,7 @@ func init() {
 					}
 				}(g, seed)
 			}
-			wg.Wait()
+			c14wait(e, &wg)
 			e.rep.Evaluations += G
 			e.Count("ctxmix")
 			e.Distinct(fmt.Sprintf("ctxmix/%d", G))
@@ -254,7 +274,7 @@ func init() {
 								}
 							}(g)
 						}
-						wg.Wait()
+						c14wait(e, &wg)
 						e.rep.Evaluations += G
 						e.Count("exec-" + mode)
 						e.Distinct(fmt.Sprintf("exec/%d/%s/%d/%v", ti, mode, G, cache))
@@ -288,9 +308,14 @@ func init() {
 		// from children of that parent (recorded finding: the stored block keeps the finished
 		// execution's evaluator, whose scope pointer every replay swaps)
 		{
-			cmd := exec.Command(os.Args[0], "-prop", "C14", "-witness", "cfshared")
+			cctx, cancel := context.WithTimeout(context.Background(), 120*time.Second)
+			cmd := exec.CommandContext(cctx, os.Args[0], "-prop", "C14", "-witness", "cfshared")
 			out, _ := cmd.CombinedOutput()
+			cancel()
 			res := strings.TrimSpace(string(out))
+			if cctx.Err() != nil {
+				res = "the replays did not finish within 120s: deadlock"
+			}
 			if i := strings.LastIndex(res, "\n"); i >= 0 {
 				res = res[i+1:]
 			}
@@ -351,7 +376,7 @@ func init() {
 								}
 							}(g)
 						}
-						wg.Wait()
+						c14wait(e, &wg)
 						e.rep.Evaluations += G
 						e.Count("view-then-layout-" + mode)
 						e.Distinct(fmt.Sprintf("viewlayout/%s/%d", mode, G))
@@ -388,7 +413,7 @@ func init() {
 					}
 				}(g)
 			}
-			wg.Wait()
+			c14wait(e, &wg)
 			e.rep.Evaluations += G
 			e.Count("cache")
 			e.Distinct(fmt.Sprintf("cache/%d", G))
